@@ -154,8 +154,8 @@ def check_registries(rep: Report, ctx: Any, rid: str) -> None:
             # the test must lead to a diagnostic: some return of an error is reachable from the test without passing the store
             t0 = next(t for t in same if cfg.is_dominated_by(st, lambda n, t=t: n is t))
             reach = cfg.reachable_from(t0, avoid=lambda n: n is st)
-            leads = any(isinstance(n, ast.stmt) and returns_error(n, errs) for n in reach)
-            rep.check(leads, rid, ckey, "the membership test never leads to an error return: a duplicate is not diagnosed",
+            leads = any(isinstance(n, ast.stmt) and (returns_error(n, errs) or isinstance(n, ast.Raise)) for n in reach)
+            rep.check(leads, rid, ckey, "the membership test never leads to an error return or raise: a duplicate is not diagnosed",
                       where(f, st), lhs="test " + norm(t0)[:80], rhs="reaches `return <error>` avoiding the store")
     rep.floor("registry_stores", n_stores, 9)
 
